@@ -141,6 +141,10 @@ def _begin(n):
 def _annotate(n, root):
     """Attach _file/_line (expansion position), _macro (outermost macro that starts the
     node), _spfile/_spline (spelling position) to every node below n."""
+    if n.get('kind') == 'InitListExpr' and not n.get('inner') and n.get('array_filler'):
+        # a partially initialised array: clang lists the filler first and then the explicit initialisers
+        n['inner'] = [c for c in n['array_filler'][1:] if isinstance(c, dict)]
+        n['_zero_filled'] = True
     b = _begin(n)
     if 'expansionLoc' in b:
         e = b['expansionLoc']
